@@ -303,53 +303,7 @@ def run(chk, repo):
                f"{'W>F images' if kw == 'w2f' else 'Sec-truncated forms'} of reference peptides to the denylist, so a variant peptide equal to one of them "
                "disappears when the flag is enabled (non-monotone)", key=f"{wr.qual}::denylist-flag::{kw}", fn=wr.qual)
 
-    # ------------------------------------------------------------------ h
-    from sa.affine import simple_aff, Aff
-    chk.rule('C05.h', 'R-AFFINE-EQV: the three sites of the leading-Met allowance agree on the length of the Met-cleaved form', 3)
-    tmq = 'svgraph.VariantPeptideDict:MiscleavedNodes.translational_modification'
-    tm = repo.func(tmq)
-    jm = repo.func('svgraph.VariantPeptideDict:MiscleavedNodes.join_miscleaved_peptides')
-    tl = repo.func('svgraph.VariantPeptideDict:MiscleavedNodeSeries.is_too_long')
-    chk.uses(tm, jm, tl)
-    # k = number of residues removed from the N-terminus of the emitted Met-cleaved form
-    from sa import sem as _sem
-    ntm = _sem.nf(repo, tm)
-    _ch = _sem.block_chains(ntm)
-    ks = set()
-    for y, _fx in _sem.yield_tuples(ntm):
-        E = _sem.expand_names(ntm, y, y.value.value.elts[0], chains=_ch)
-        if isinstance(E, ast.Subscript) and isinstance(E.slice, ast.Slice) and E.slice.upper is None and isinstance(E.slice.lower, ast.Constant):
-            ks.add(E.slice.lower.value)
-    if len(ks) != 1:
-        raise AnalysisError(f"anchor={tmq}: Met-cleaved form `<seq>[k:]` not found among the yields / inconsistent ({sorted(ks)})")
-    k = ks.pop()
-    tr = G.find_calls(ntm, 'truncate_left')
-    chk.ob('C05.h', f"translational_modification: the node chain of the cleaved form is truncated by the same {k} residue(s)", tm.where,
-           bool(tr) and all(len(c.args) == 1 and isinstance(c.args[0], ast.Constant) and c.args[0].value == k for c in tr),
-           f"sequence is cut by {k} but the leading node by {[unparse(c.args[0]) for c in tr if c.args]}", key=tmq + '::cleaved-k', fn=tm.qual)
-    gates = []
-    for c in G.find_calls(jm.node, 'seq_has_valid_size'):
-        par = repo.parent(c)
-        if isinstance(par, ast.BoolOp) and isinstance(par.op, ast.And) and any("startswith('M')" in unparse(v) for v in par.values):
-            gates.append(c)
-    if len(gates) != 1:
-        raise AnalysisError('anchor=join_miscleaved_peptides: Met allowance of the size gate not found')
-    a = kwarg(gates[0], 'size')
-    av = simple_aff(a) if a is not None else None
-    chk.ob('C05.h', f"join_miscleaved_peptides: the size gate admits a Met-leading series when size - {k} is a valid size", repo.loc(jm, gates[0]),
-           av is not None and av == Aff.sym('size') - k,
-           f"the gate tests seq_has_valid_size(size={unparse(a) if a is not None else '?'}) = {av}, but the emitted Met-cleaved form has size - {k} residues: "
-           f"a series of max_length + {k} starting with M is dropped (its legal cleaved form of exactly max_length is lost, while it is reported under "
-           "max_length + 1: relaxing the limit adds a peptide inside the stricter limit)", key=jm.qual + '::met-allowance', fn=jm.qual)
-    cmps = [n for n in ast.walk(tl.node) if isinstance(n, ast.Compare) and isinstance(repo.parent(n), ast.BoolOp) and isinstance(repo.parent(n).op, ast.And)
-            and any("startswith('M')" in unparse(v) for v in repo.parent(n).values)]
-    okl = False
-    got = None
-    if len(cmps) == 1 and len(cmps[0].ops) == 1 and isinstance(cmps[0].ops[0], ast.LtE):
-        got = simple_aff(cmps[0].comparators[0])
-        okl = unparse(cmps[0].left) == 'len(self)' and got == Aff.sym('param.max_length') + k
-    chk.ob('C05.h', f"is_too_long: a series starting with M may be max_length + {k} long", tl.where, okl,
-           f"allowance is {got}: the series whose Met-cleaved form has exactly max_length residues is abandoned (or longer ones kept)", key=tl.qual + '::met-allowance', fn=tl.qual)
+    met_allowance_rule(chk, repo, 'C05.h')
 
     # ------------------------------------------------------------------ i
     from sa.cfg import CFG as _CFG
@@ -425,3 +379,54 @@ def flag_polarity(e, flag):
     if (isinstance(e, ast.Name) and e.id == flag) or (isinstance(e, ast.Attribute) and e.attr == flag):
         return '+'
     return '?' if P.mentions(e, flag, {flag}) else '0'
+
+
+def met_allowance_rule(chk, repo, rid='C05.h'):
+    # ------------------------------------------------------------------ h
+    from sa.affine import simple_aff, Aff
+    chk.rule(rid, 'R-AFFINE-EQV: the three sites of the leading-Met allowance agree on the length of the Met-cleaved form', 3)
+    tmq = 'svgraph.VariantPeptideDict:MiscleavedNodes.translational_modification'
+    tm = repo.func(tmq)
+    jm = repo.func('svgraph.VariantPeptideDict:MiscleavedNodes.join_miscleaved_peptides')
+    tl = repo.func('svgraph.VariantPeptideDict:MiscleavedNodeSeries.is_too_long')
+    chk.uses(tm, jm, tl)
+    # k = number of residues removed from the N-terminus of the emitted Met-cleaved form
+    from sa import sem as _sem
+    ntm = _sem.nf(repo, tm)
+    _ch = _sem.block_chains(ntm)
+    ks = set()
+    for y, _fx in _sem.yield_tuples(ntm):
+        E = _sem.expand_names(ntm, y, y.value.value.elts[0], chains=_ch)
+        if isinstance(E, ast.Subscript) and isinstance(E.slice, ast.Slice) and E.slice.upper is None and isinstance(E.slice.lower, ast.Constant):
+            ks.add(E.slice.lower.value)
+    if len(ks) != 1:
+        raise AnalysisError(f"anchor={tmq}: Met-cleaved form `<seq>[k:]` not found among the yields / inconsistent ({sorted(ks)})")
+    k = ks.pop()
+    tr = G.find_calls(ntm, 'truncate_left')
+    chk.ob(rid, f"translational_modification: the node chain of the cleaved form is truncated by the same {k} residue(s)", tm.where,
+           bool(tr) and all(len(c.args) == 1 and isinstance(c.args[0], ast.Constant) and c.args[0].value == k for c in tr),
+           f"sequence is cut by {k} but the leading node by {[unparse(c.args[0]) for c in tr if c.args]}", key=tmq + '::cleaved-k', fn=tm.qual)
+    gates = []
+    for c in G.find_calls(jm.node, 'seq_has_valid_size'):
+        par = repo.parent(c)
+        if isinstance(par, ast.BoolOp) and isinstance(par.op, ast.And) and any("startswith('M')" in unparse(v) for v in par.values):
+            gates.append(c)
+    if len(gates) != 1:
+        raise AnalysisError('anchor=join_miscleaved_peptides: Met allowance of the size gate not found')
+    a = kwarg(gates[0], 'size')
+    av = simple_aff(a) if a is not None else None
+    chk.ob(rid, f"join_miscleaved_peptides: the size gate admits a Met-leading series when size - {k} is a valid size", repo.loc(jm, gates[0]),
+           av is not None and av == Aff.sym('size') - k,
+           f"the gate tests seq_has_valid_size(size={unparse(a) if a is not None else '?'}) = {av}, but the emitted Met-cleaved form has size - {k} residues: "
+           f"a series of max_length + {k} starting with M is dropped (its legal cleaved form of exactly max_length is lost, while it is reported under "
+           "max_length + 1: relaxing the limit adds a peptide inside the stricter limit)", key=jm.qual + '::met-allowance', fn=jm.qual)
+    cmps = [n for n in ast.walk(tl.node) if isinstance(n, ast.Compare) and isinstance(repo.parent(n), ast.BoolOp) and isinstance(repo.parent(n).op, ast.And)
+            and any("startswith('M')" in unparse(v) for v in repo.parent(n).values)]
+    okl = False
+    got = None
+    if len(cmps) == 1 and len(cmps[0].ops) == 1 and isinstance(cmps[0].ops[0], ast.LtE):
+        got = simple_aff(cmps[0].comparators[0])
+        okl = unparse(cmps[0].left) == 'len(self)' and got == Aff.sym('param.max_length') + k
+    chk.ob(rid, f"is_too_long: a series starting with M may be max_length + {k} long", tl.where, okl,
+           f"allowance is {got}: the series whose Met-cleaved form has exactly max_length residues is abandoned (or longer ones kept)", key=tl.qual + '::met-allowance', fn=tl.qual)
+
